@@ -27,6 +27,14 @@ CHECKS = {
                      "stack, a counting allocator and thread-CPU timing; DecodeTrace.tla (TLC) recomputes the reference verdict from the logged bytes and evaluates "
                      "C04_Total / C04_Alloc / C04_Cpu / C04_Idempotent / C04_AcceptsValid per record. Exhaustive for the generated space.",
                 note="trusted: the monitors (catch_unwind + child exit status, counting allocator, CLOCK_THREAD_CPUTIME); bounds 64 B/B + 32 MiB and 2 s CPU are the weaker reading of 'out of proportion'"),
+    "C06": dict(technique="TLC model check of the frame-splitting rule and of the stream reader over all partitions (Framing.tla, StreamDec.tla); TLC-generated frames / partitions replayed through the real Transport; written and decoded frames validated in TLC (FramingTrace.tla)",
+                design="4/C06",
+                text="MC: the splitting rule satisfies size <= max, contiguous slices, more flags and progress for every payload length 0..3*max+2 and every "
+                     "combination of first / continuation / last performative lengths; the stream reader emits the original frames under every partition "
+                     "(liveness under fairness). Conformance: ~1200 performative x channel x max-frame-size x payload-length cases are sent through "
+                     "Transport's Sink and ~1400 partitions of a five-frame stream through its Stream; FramingTrace.tla decodes each performative with the "
+                     "reference decoder and evaluates the same clauses on what the code wrote / read.",
+                note="trusted: harness frame-header parser, performative extent finder and payload pattern; Transport is driven through its public bind / set_*_max_frame_size API"),
     "C20": dict(technique="TLC-generated values and encodings; slice/reader/size/value-tree entry points compared by the harness, tree and bytes judged by the TLA+ decoder",
                 design="4/C20",
                 text="For every generated case: serialized_size = |to_vec|; from_slice and from_reader (chunk sizes 1,2,3,7,16,whole) agree and stop at the "
